@@ -10,6 +10,7 @@ CONSTANTS
   NotifyDown = TRUE
   MaxTx = 2
   PGossip = FALSE
+  PAnnDown = FALSE
   PAnnounce = FALSE
 INVARIANTS MonitorsQuiet C04Recovers
 VIEW View
